@@ -1,54 +1,53 @@
-"""Discharging obligations.
+"""Discharging obligations with z3.
 
-Every obligation is printed as SMT-LIB2 and decided by a z3 *subprocess* (`z3-new -T:<s>`): hard
-time limits (the in-process timeout is only advisory inside quantifier instantiation) and real
-parallelism over the 16 cores.  On anything but `unsat` the goal is split (conjunctions,
-skolemised universals, extensional equalities) and the parts are tried separately, which also
-names the part that fails.
+The obligations are z3 ASTs living in this process.  They are decided by *forked* worker processes
+(each inherits the z3 context copy-on-write and uses the in-process solver, which behaves better on the
+quantified array formulas than a round trip through SMT-LIB text did), which gives hard wall-clock
+limits (a worker that overruns is killed) and parallelism over the cores.
+
+Rounds: (1) whole goal, short budget; (2) goal split into conjuncts / skolemised universals /
+opened implications; (3) parts that still fail are split further by presenting datatype / array
+equalities extensionally.  A part that fails is named in the report.
 """
 from __future__ import annotations
 
+import json
 import os
-import shutil
-import subprocess
-import tempfile
+import select
 import time
-from concurrent.futures import ThreadPoolExecutor
 
 import z3
 
-Z3_BIN = shutil.which("z3-new") or shutil.which("z3") or "/usr/bin/z3"
-CVC5_BIN = shutil.which("cvc5")
 
-
-def split_goal(goal, depth=0):
-    """-> list of (hyps, subgoal): conjunctions are split, universal goals skolemised, implications opened"""
-    if depth > 8:
+def split_goal(goal, depth=0, ext=False):
+    """-> list of (hyps, subgoal)"""
+    if depth > 10:
         return [([], goal)]
     if z3.is_and(goal):
         out = []
         for ch in goal.children():
-            out.extend(split_goal(ch, depth + 1))
+            out.extend(split_goal(ch, depth + 1, ext))
         return out
     if z3.is_implies(goal):
         a, b = goal.children()
-        return [([a] + h, g) for h, g in split_goal(b, depth + 1)]
+        return [([a] + h, g) for h, g in split_goal(b, depth + 1, ext)]
     if z3.is_quantifier(goal) and goal.is_forall():
         n = goal.num_vars()
         consts = [z3.FreshConst(goal.var_sort(i), "sk_" + goal.var_name(i).replace("!", "_")) for i in range(n)]
         body = z3.substitute_vars(goal.body(), *reversed(consts))
-        return split_goal(body, depth + 1)
+        return split_goal(body, depth + 1, ext)
+    if z3.is_app(goal) and goal.decl().kind() == z3.Z3_OP_ITE and goal.sort() == z3.BoolSort():
+        c, a, b = goal.children()
+        return [([c] + h, g) for h, g in split_goal(a, depth + 1, ext)] + \
+               [([z3.Not(c)] + h, g) for h, g in split_goal(b, depth + 1, ext)]
     if z3.is_eq(goal):
         a, b = goal.children()
         if a.sort() == z3.BoolSort():
-            return split_goal(z3.Implies(a, b), depth + 1) + split_goal(z3.Implies(b, a), depth + 1)
-        ext = ext_eq(a, b)
-        if ext is not None:
-            return split_goal(ext, depth + 1)
-    if z3.is_app(goal) and goal.decl().kind() == z3.Z3_OP_ITE and goal.sort() == z3.BoolSort():
-        c, a, b = goal.children()
-        return [([c] + h, g) for h, g in split_goal(a, depth + 1)] + \
-               [([z3.Not(c)] + h, g) for h, g in split_goal(b, depth + 1)]
+            return split_goal(z3.Implies(a, b), depth + 1, ext) + split_goal(z3.Implies(b, a), depth + 1, ext)
+        if ext:
+            e = ext_eq(a, b)
+            if e is not None:
+                return split_goal(e, depth + 1, ext)
     return [([], goal)]
 
 
@@ -65,9 +64,11 @@ def ext_eq(a, b, depth=0):
         for i in range(c.arity()):
             acc = s.accessor(0, i)
             x, y = z3.simplify(acc(a)), z3.simplify(acc(b))
+            if z3.eq(x, y):
+                continue
             e = ext_eq(x, y, depth + 1)
             parts.append(e if e is not None else x == y)
-        return z3.And(*parts)
+        return z3.And(*parts) if parts else z3.BoolVal(True)
     if isinstance(s, z3.ArraySortRef):
         i = z3.FreshConst(s.domain(), "ext")
         x, y = z3.simplify(z3.Select(a, i)), z3.simplify(z3.Select(b, i))
@@ -99,111 +100,162 @@ def _check_inproc(pc, goal, axioms, timeout_ms, seed, want_model):
     return "unknown", {"reason": s.reason_unknown()}
 
 
-def run_forked(tasks, jobs, hard_extra_s=3.0):
-    """tasks: list of (key, fn) ; each fn() runs in a forked child (inherits the z3 context copy-on-write) and
-    returns a JSON-able (status, info).  Hard wall-clock limit per child via fn.limit_s."""
-    import json
-    import select
-    results = {}
-    pending = list(tasks)
-    running = {}  # pid -> (key, fd, t0, limit)
-    while pending or running:
-        while pending and len(running) < jobs:
-            key, fn, limit = pending.pop(0)
-            r, w_ = os.pipe()
-            pid = os.fork()
-            if pid == 0:
-                try:
-                    os.close(r)
+class _Worker:
+    def __init__(self, idxs, tasks):
+        self.idxs = list(idxs)
+        r, w_ = os.pipe()
+        self.pid = os.fork()
+        if self.pid == 0:
+            os.close(r)
+            try:
+                for i in self.idxs:
+                    key, fn, limit = tasks[i]
+                    t0 = time.time()
                     try:
-                        out = fn()
+                        st, info = fn()
                     except Exception as e:  # noqa
-                        out = ("error", {"reason": f"{type(e).__name__}: {e}"[:500]})
-                    os.write(w_, json.dumps(out).encode())
-                finally:
-                    os._exit(0)
-            os.close(w_)
-            running[pid] = (key, r, time.time(), limit)
-        # poll
+                        st, info = "error", {"reason": f"{type(e).__name__}: {e}"[:500]}
+                    info["time"] = time.time() - t0
+                    os.write(w_, (json.dumps([i, st, info]) + "\n").encode())
+            finally:
+                os._exit(0)
+        os.close(w_)
+        self.fd = r
+        self.buf = b""
+        self.done: set[int] = set()
+        self.last = time.time()
+        self.alive = True
+
+    def current(self):
+        for i in self.idxs:
+            if i not in self.done:
+                return i
+        return None
+
+
+def run_forked(tasks, jobs, hard_extra_s=4.0):
+    """tasks: [(key, fn, limit_s)] -> {key: (status, info)}.  A fixed number of forked workers, each taking a
+    round-robin share; a worker that overruns its current task's limit is killed and its remaining tasks are
+    handed to a fresh worker."""
+    results: dict = {}
+    if not tasks:
+        return results
+    n = len(tasks)
+    jobs = max(1, min(jobs, n))
+    workers = [_Worker(range(j, n, jobs), tasks) for j in range(jobs)]
+    while any(w.alive for w in workers):
+        fds = [w.fd for w in workers if w.alive]
+        rl, _, _ = select.select(fds, [], [], 0.05)
         now = time.time()
-        for pid in list(running):
-            key, fd, t0, limit = running[pid]
-            done_pid, _ = os.waitpid(pid, os.WNOHANG)
-            if done_pid == pid:
-                data = b""
-                while True:
-                    chunk = os.read(fd, 65536)
-                    if not chunk:
-                        break
-                    data += chunk
-                os.close(fd)
-                del running[pid]
+        for w in list(workers):
+            if not w.alive:
+                continue
+            if w.fd in rl:
+                chunk = os.read(w.fd, 1 << 16)
+                if chunk:
+                    w.buf += chunk
+                    while b"\n" in w.buf:
+                        line, w.buf = w.buf.split(b"\n", 1)
+                        i, st, info = json.loads(line.decode())
+                        results[tasks[i][0]] = (st, info)
+                        w.done.add(i)
+                        w.last = now
+                else:
+                    os.close(w.fd)
+                    try:
+                        os.waitpid(w.pid, 0)
+                    except ChildProcessError:
+                        pass
+                    w.alive = False
+                    rest = [i for i in w.idxs if i not in w.done]
+                    if rest:  # died unexpectedly
+                        results[tasks[rest[0]][0]] = ("error", {"reason": "solver worker died", "time": now - w.last})
+                        if rest[1:]:
+                            workers.append(_Worker(rest[1:], tasks))
+                    continue
+            cur = w.current()
+            if cur is not None and now - w.last > tasks[cur][2] + hard_extra_s:
                 try:
-                    st, info = json.loads(data.decode())
-                except Exception:
-                    st, info = "error", {"reason": "solver child died without a result"}
-                info["time"] = time.time() - t0
-                results[key] = (st, info)
-            elif now - t0 > limit + hard_extra_s:
-                try:
-                    os.kill(pid, 9)
+                    os.kill(w.pid, 9)
+                    os.waitpid(w.pid, 0)
                 except OSError:
                     pass
-                os.waitpid(pid, 0)
-                os.close(fd)
-                del running[pid]
-                results[key] = ("unknown", {"reason": "hard timeout (killed)", "time": now - t0})
-        if running:
-            # drain pipes of children that produce big outputs, then nap
-            rl, _, _ = select.select([v[1] for v in running.values()], [], [], 0.01)
-            time.sleep(0.005)
+                os.close(w.fd)
+                w.alive = False
+                results[tasks[cur][0]] = ("unknown", {"reason": "hard timeout (worker killed)", "time": now - w.last})
+                rest = [i for i in w.idxs if i not in w.done and i != cur]
+                if rest:
+                    workers.append(_Worker(rest, tasks))
     return results
 
 
 def discharge_all(obligations, axioms, timeout_ms=10000, seed=0, jobs=8):
-    """-> {oid: result dict}.  Round 1: whole goals; round 2: the parts of what is left (names the failing part)."""
+    """-> {oid: result dict}"""
     results = {}
-    first_ms = min(timeout_ms, 4000)
-    t1 = []
-    for ob in obligations:
-        t1.append((ob.oid, (lambda ob=ob: _check_inproc(ob.pc, ob.goal, axioms, first_ms, seed, False)),
-                   first_ms / 1000.0))
+    first_ms = min(timeout_ms, 3000)
+    t1 = [(ob.oid, (lambda ob=ob: _check_inproc(ob.pc, ob.goal, axioms, first_ms, seed, False)), first_ms / 1000.0)
+          for ob in obligations]
     r1 = run_forked(t1, jobs)
     for ob in obligations:
-        st, info = r1[ob.oid]
+        st, info = r1.get(ob.oid, ("error", {"reason": "no result"}))
         results[ob.oid] = {"status": st, "time": info.get("time", 0.0), "backend": "z3", "parts": 1,
                            "reason": info.get("reason")}
     left = [ob for ob in obligations if results[ob.oid]["status"] != "proved"]
-    t2 = []
-    meta = {}
-    for ob in left:
-        parts = split_goal(ob.goal)
-        for k, (hyps, g) in enumerate(parts):
-            key = f"{ob.oid}#{k}"
-            meta[key] = (ob, k, g)
-            t2.append((key, (lambda ob=ob, hyps=hyps, g=g: _check_inproc(list(ob.pc) + hyps, g, axioms, timeout_ms,
-                                                                        seed, True)), timeout_ms / 1000.0))
-    r2 = run_forked(t2, jobs)
-    per_ob = {}
-    for key, (st, info) in r2.items():
-        ob, k, g = meta[key]
-        per_ob.setdefault(ob.oid, []).append((k, st, info, g))
-    for ob in left:
-        rs = sorted(per_ob.get(ob.oid, []), key=lambda x: x[0])
-        tot = results[ob.oid]["time"] + sum(i.get("time", 0.0) for _, _, i, _ in rs)
-        failed = [(k, st, info, g) for k, st, info, g in rs if st != "proved"]
-        if not failed:
-            results[ob.oid] = {"status": "proved", "time": tot, "backend": "z3", "parts": len(rs)}
-            continue
-        sts = {st for _, st, _, _ in failed}
-        worst = "error" if "error" in sts else "refuted" if "refuted" in sts else "unknown"
-        model = next((info.get("model") for _, st, info, _ in failed if st == "refuted" and info.get("model")), None)
-        results[ob.oid] = {
-            "status": worst, "time": tot, "backend": "z3", "parts": len(rs),
-            "reason": "; ".join(f"part{k}:{st}:{info.get('reason', 'sat')}" for k, st, info, _ in failed)[:400],
-            "failed_part": " || ".join(z3.simplify(g).sexpr()[:400] for _, _, _, g in failed[:3])[:1500],
-            "model": model,
-        }
+    for rnd, ext in ((2, False), (3, True)):
+        if not left:
+            break
+        tasks, meta = [], {}
+        active = []
+        for ob in left:
+            parts = getattr(ob, "_parts", None)
+            if parts is None:
+                parts = split_goal(ob.goal, ext=False)
+            if ext:
+                newparts = []
+                changed = False
+                for hyps, g in parts:
+                    sub = split_goal(g, ext=True)
+                    if len(sub) != 1 or not z3.eq(sub[0][1], g):
+                        changed = True
+                    newparts.extend((hyps + h2, g2) for h2, g2 in sub)
+                if not changed:
+                    continue  # nothing new to try: keep the round-2 verdict
+                parts = newparts
+            active.append(ob)
+            for k, (hyps, g) in enumerate(parts):
+                key = f"{ob.oid}#{rnd}.{k}"
+                meta[key] = (ob, k, hyps, g)
+                tasks.append((key, (lambda ob=ob, hyps=hyps, g=g: _check_inproc(list(ob.pc) + hyps, g, axioms,
+                                                                                timeout_ms, seed, True)),
+                              timeout_ms / 1000.0))
+        r = run_forked(tasks, jobs)
+        per_ob = {}
+        for key, (st, info) in r.items():
+            ob, k, hyps, g = meta[key]
+            per_ob.setdefault(ob.oid, []).append((k, st, info, hyps, g))
+        still = []
+        for ob in active:
+            rs = sorted(per_ob.get(ob.oid, []), key=lambda x: x[0])
+            tot = results[ob.oid]["time"] + sum(i.get("time", 0.0) for _, _, i, _, _ in rs)
+            failed = [(k, st, info, hyps, g) for k, st, info, hyps, g in rs if st != "proved"]
+            if not failed:
+                results[ob.oid] = {"status": "proved", "time": tot, "backend": "z3", "parts": len(rs)}
+                continue
+            sts = {st for _, st, _, _, _ in failed}
+            worst = "error" if "error" in sts else "refuted" if "refuted" in sts else "unknown"
+            model = next((info.get("model") for _, st, info, _, _ in failed
+                          if st == "refuted" and info.get("model")), None)
+            results[ob.oid] = {
+                "status": worst, "time": tot, "backend": "z3", "parts": len(rs),
+                "reason": "; ".join(f"part{k}:{st}:{info.get('reason', 'sat')}" for k, st, info, _, _ in failed)[:400],
+                "failed_part": " || ".join(z3.simplify(g).sexpr()[:400] for _, _, _, _, g in failed[:3])[:1500],
+                "model": model,
+            }
+            # next round works only on the parts that failed, and only if splitting them changes anything
+            ob._parts = [(hyps, g) for _, _, _, hyps, g in failed]
+            if not ext and worst != "error":
+                still.append(ob)
+        left = still
     return results
 
 
